@@ -148,7 +148,8 @@ impl GenerationPass for LivenessPass {
                     changed |= node.set_live_in(live_in);
                     changed |= node.set_u_def(u_def);
                 }
-                visited.insert(node);
+                // (a sweep in which a node was seen for the first time is never the last one)
+                changed |= visited.insert(node);
             }
         }
         Ok(())
